@@ -74,8 +74,8 @@ def run(chk):
     n_asm = 0
     for w, T in TYS.items():
         t = 'u%d' % w
-        fr = 'instructions::port::<impl structures::port::PortRead for %s>::read_from_port' % t
-        fw = 'instructions::port::<impl structures::port::PortWrite for %s>::write_to_port' % t
+        fr = '<%s as structures::port::PortRead>::read_from_port' % t
+        fw = '<%s as structures::port::PortWrite>::write_to_port' % t
         port = BV.sym(16, 'port')
         chk.guard('port-read', t, lambda: check_in(chk, '<%s as PortRead>::read_from_port' % t, I.run(fr, [port]), w, port, fn_site(I, fr)))
         val = BV.sym(w, 'value')
@@ -115,11 +115,18 @@ def run(chk):
                'returns %r expected %r' % (o, want))
         chk.count('function-instances', 3)
     chk.guard('port-object', 'new/clone/eq', misc)
-    # census: every asm block under instructions::port is one of the six analysed
-    blocks = 0
+    # census: every port instruction (`in` / `out`) of the crate is one of the six accessors analysed above, wherever they live
+    from ..interp import Interp
+    blocks, foreign = 0, []
     for f in chk.facts['fns']:
-        if f['name'].startswith('instructions::port::'):
-            blocks += sum(1 for b in f['blocks'] if b['t'] and b['t']['k'] == 'asm')
-    chk.guard('asm-options', 'port.rs', lambda: asm_not_pure(chk, chk.I, 'asm-options', ['src/instructions/port.rs'], 6))
-    chk.floor('asm blocks in instructions::port', blocks, 6)
-    chk.ob('census', 'no asm block in instructions::port beyond the six port accessors', blocks == 6, 'found %d' % blocks)
+        for b in f['blocks']:
+            t = b['t']
+            if t and t['k'] == 'asm':
+                tpl = ''.join((p.get('s') if p.get('s') is not None else '{%s}' % p.get('op')) for p in t['tpl'])
+                if any(i.split()[0] in ('in', 'out') for i in SI.insns(tpl) if i.split()):
+                    blocks += 1
+                    if (f['name'], t['loc']) not in Interp.ASM_TOUCHED:
+                        foreign.append(f['name'])
+    chk.guard('asm-options', 'port instructions', lambda: asm_not_pure(chk, chk.I, 'asm-options', [], 6))
+    chk.floor('port instructions in the crate', blocks, 6)
+    chk.ob('census', 'no `in` / `out` instruction beyond the six port accessors', blocks == 6 and not foreign, 'found %d, not analysed: %r' % (blocks, foreign))
